@@ -666,4 +666,248 @@ theorem tok_spawnOne {s : S} {y : Option JobId} {j : JobId} {c : SpecId} (ht : T
     · subst hXn; rw [spawnOne_jobs_new]; simp
     · rw [spawnOne_jobs_ne s j c X hXn]; exact ht.nodup X
 
+
+/-! ## part 7: `_done_job_main_thread` -/
+
+theorem tok_exempt {s : S} {y : Option JobId} (j : JobId) (ht : Tok s none y) : Tok s (some j) y :=
+  { ht with lb := fun i _ he => ht.lb i (by simp) he }
+
+theorem tok_spawnFold {j : JobId} {y : Option JobId} (cs : List SpecId) (s : S) (ht : Tok s (some j) y)
+    (htot : tot s j = 0) (hp : pend s j) (hlt : j < s.next) (hnt : ¬ Tw s j) :
+    Tok (cs.foldl (fun s c => spawnOne s j c) s) (some j) y ∧
+    cntPend (cs.foldl (fun s c => spawnOne s j c) s) j = cntPend s j + cs.length := by
+  induction cs generalizing s with
+  | nil => exact ⟨ht, rfl⟩
+  | cons c cs ih =>
+    have hjn : j ≠ s.next := Nat.ne_of_lt hlt
+    have d1 := tok_spawnOne (c := c) ht htot hp hlt hnt
+    have htot1 : tot (spawnOne s j c) j = 0 := by
+      rw [tot_spawnOne, htot]; have : ¬ s.next = j := fun e => hjn e.symm
+      simp [this]
+    have hj1 : (spawnOne s j c).jobs j = s.jobs j := spawnOne_jobs_ne s j c j hjn
+    have hp1 : pend (spawnOne s j c) j := by unfold pend; rw [hj1]; exact hp
+    obtain ⟨a, f⟩ := ih (spawnOne s j c) d1 htot1 hp1 (Nat.lt_succ_of_lt hlt) (fun h => hnt (spawnOne_Tw s j c j h))
+    refine ⟨a, ?_⟩
+    rw [List.foldl_cons, f, spawnOne_cnt]
+    simp only [if_true, List.length_cons]
+    omega
+
+theorem ft_setWaiting (s : S) (j : JobId) (n : Nat) : Ft s (setJob s j fun js => { js with waiting := n }) := by
+  refine ⟨rfl, rfl, ?_, ?_, ?_, ?_, fun _ => rfl, fun _ => rfl, fun _ _ => Iff.rfl⟩ <;>
+  · intro i; simp only [setJob]; split <;> rfl
+
+theorem tok_setWaiting {s : S} {y : Option JobId} {j : JobId} (n : Nat) (ht : Tok s (some j) y)
+    (hn : (s.jobs j).evalFailed = false → cntPend s j ≤ n) :
+    Tok (setJob s j fun js => { js with waiting := n }) none y := by
+  refine (ft_setWaiting s j n).tokW ht ?_
+  intro i _ he
+  by_cases hij : i = j
+  · subst hij; simp only [setJob, if_true]; exact hn he
+  · simp only [setJob, hij, if_false]
+    exact ht.lb i (fun e => hij (Option.some.inj e)) he
+
+/-- `s` is the state with the `done` event already taken off -/
+theorem doneJob_tok (p : Prog) (s : S) (j : JobId) (f : Bool) (ht : Tok s none none) (htot : tot s j = 0)
+    (hp : pend s j) (hlt : j < s.next) (hnk : noKids s j) (hnt : f = false → ¬ Tw s j)
+    (hX : ∀ X, j ∈ (s.jobs X).twins → ¬ pend s X) : Tok (doneJob p s j f) none none := by
+  rw [doneJob_eq]
+  have f0 := ftw_releaseIf p s j
+  generalize releaseIf p s j = s1 at f0
+  unfold doneRest
+  have f1 : FtW s1 (if (!(s1.jobs j).wasCached && (spec p s1 j).prov) = true then
+      { s1 with evalTable := (spec p s1 j).key :: s1.evalTable } else s1) := by
+    split
+    · exact ftw_of_eq rfl rfl rfl rfl rfl
+    · exact FtW.refl s1
+  generalize (if (!(s1.jobs j).wasCached && (spec p s1 j).prov) = true then
+      { s1 with evalTable := (spec p s1 j).key :: s1.evalTable } else s1) = s2 at f1
+  have f2 := f0.trans f1
+  have d2 : Tok s2 none none := f2.tok ht
+  have htot2 : tot s2 j = 0 := by rw [f2.ft.tt]; exact htot
+  have hp2 : pend s2 j := (f2.ft.pendIff j).mpr hp
+  have hlt2 : j < s2.next := by rw [f2.ft.next]; exact hlt
+  have hnk2 : noKids s2 j := (f2.ft.noKidsIff j).mpr hnk
+  have hX2 : ∀ X, j ∈ (s2.jobs X).twins → ¬ pend s2 X := by
+    intro X hm; rw [f2.ft.tw] at hm; rw [f2.ft.pendIff]; exact hX X hm
+  dsimp only
+  split
+  · exact tok_enqueue _ j d2 rfl (by intro k; simp) htot2 hp2 hlt2
+      (fun c hc hpc _ => absurd hpc (hnk2 c hc)) (fun ⟨_, h⟩ => by simp at h)
+      (fun X hm => ⟨hX2 X hm, by simp, by simp⟩)
+  · rename_i hf
+    have hf' : f = false := by simpa using hf
+    have hnt2 : ¬ Tw s2 j := fun h => hnt hf' ((f2.ft.twIff j).mp h)
+    unfold spawn
+    dsimp only
+    obtain ⟨a, e⟩ := tok_spawnFold (spec p s2 j).children s2 (tok_exempt j d2) htot2 hp2 hlt2 hnt2
+    rw [cntPend_zero_of_noKids hnk2] at e
+    have d4 := tok_setWaiting (spec p s2 j).children.length a (fun _ => by omega)
+    split
+    · rename_i hnil
+      have hcs : (spec p s2 j).children = [] := by simpa using hnil
+      rw [hcs] at d4 ⊢
+      simp only [List.foldl_nil, List.length_nil] at d4 ⊢
+      have fw := ft_setWaiting s2 j 0
+      exact tok_enqueue _ j d4 rfl (by intro k; simp) (by rw [fw.tt]; exact htot2) ((fw.pendIff j).mpr hp2)
+        (by rw [fw.next]; exact hlt2)
+        (fun c hc hpc _ => absurd hpc ((fw.noKidsIff j).mpr hnk2 c hc)) (fun ⟨_, h⟩ => by simp at h)
+        (fun X hm => absurd ⟨X, by rw [fw.tw] at hm; exact hm⟩ hnt2)
+    · exact d4
+
+
+/-! ## part 8: a job resolves -/
+
+theorem ResEff.tok {s s' : S} {y : Option JobId} {j : JobId} (h : ResEff s s' j) (ht : Tok s none y)
+    (htot : tot s j = 0) (hp : pend s j) (hlt : j < s.next)
+    (hk : ∀ c, c < s.next → (s.jobs c).parent = some j → pend s c → (s.jobs j).evalFailed = true)
+    (hnt : ∀ X, j ∈ (s.jobs X).twins → ¬ pend s X) : Tok s' none y := by
+  have hpend : ∀ i, pend s' i ↔ (pend s i ∧ i ≠ j) := by
+    intro i; unfold pend; rw [h.st]
+    by_cases e : i = j
+    · simp [e]
+    · simp [e]
+  have hparne : ∀ par, (s.jobs j).parent = some par → par ≠ j := by
+    intro par hpar e; have := ht.parlt j par hlt hpar; subst e; exact Nat.lt_irrefl _ this
+  have hEW : ∀ i, EW s' i = EW s i :=
+    EW_append_resolve s s' h.pl (h.queue.imp id (fun ⟨par, _, _, _, q⟩ => ⟨par, q⟩))
+  have htot' : ∀ i, tot s' i = tot s i ∨
+      (tot s' i = tot s i + 1 ∧ (s.jobs j).parent = some i ∧ (s.jobs i).evalFailed = false ∧ (s.jobs i).waiting - 1 = 0) := by
+    intro i
+    unfold tot tk
+    rw [h.pl, h.infl]
+    rcases h.queue with q | ⟨par, q1, q2, q3, q⟩
+    · left; rw [q]
+    · by_cases e : par = i
+      · subst e; right
+        refine ⟨?_, q1, q2, q3⟩
+        rw [q]; simp [List.countP_append, evJob]; omega
+      · left; rw [q]; simp [List.countP_append, evJob, e]
+  have hmem : ∀ e, e ∈ s'.queue → e ∈ s.queue ∨ ∃ par, e = Ev.resolve par := by
+    intro e he
+    rcases h.queue with q | ⟨par, _, _, _, q⟩
+    · rw [q] at he; exact Or.inl he
+    · rw [q] at he
+      rcases List.mem_append.mp he with a | a
+      · exact Or.inl a
+      · exact Or.inr ⟨par, List.mem_singleton.mp a⟩
+  have hnoKids : ∀ i, noKids s' i ↔ noKids s i := by intro i; unfold noKids; rw [h.next]; simp only [h.par]
+  have hTw : ∀ i, Tw s' i ↔ Tw s i := by intro i; unfold Tw; simp only [h.tw]
+  have hlb : ∀ i, (s.jobs i).evalFailed = false → cntPend s' i ≤ (s'.jobs i).waiting := by
+    intro i he
+    have h0 := ht.lb i (by simp) he
+    rw [h.wt]
+    unfold cntPend at h0 ⊢
+    rw [h.next]
+    have hkid : ∀ c, c ≠ j → kidPend s i c = kidPend s' i c := by
+      intro c hcj; unfold kidPend; rw [h.par, h.st]; simp [hcj]
+    by_cases hpar : (s.jobs j).parent = some i
+    · simp only [hpar, if_true]
+      have hf : kidPend s i j = true := by unfold kidPend; simp [hpar]; exact hp
+      have hg : kidPend s' i j = false := by unfold kidPend; rw [h.st]; simp
+      have := cntTo_flip (f := kidPend s i) (g := kidPend s' i) (n := s.next) j hlt hkid hf hg
+      omega
+    · simp only [hpar, if_false]
+      have : cntTo (kidPend s' i) s.next = cntTo (kidPend s i) s.next := by
+        apply cntTo_congr
+        intro c _
+        by_cases hcj : c = j
+        · subst hcj; unfold kidPend; rw [h.par]; simp [hpar]
+        · exact (hkid c hcj).symm
+      omega
+  refine ⟨?_, ?_, ?_, ?_, ?_, ?_, ?_, ?_, ?_⟩
+  · intro i
+    obtain ⟨a, b, c⟩ := ht.tok i
+    rw [h.next]
+    rcases htot' i with e | ⟨e, e1, e2, _⟩
+    · rw [e]
+      refine ⟨a, fun hnp => ?_, fun hn => ⟨(c hn).1, ?_⟩⟩
+      · by_cases hij : i = j
+        · subst hij; exact htot
+        · exact b (fun hpi => hnp ((hpend i).mpr ⟨hpi, hij⟩))
+      · exact (hpend i).mpr ⟨(c hn).2, fun e' => absurd hlt (Nat.not_lt.mpr (e' ▸ hn))⟩
+    · obtain ⟨t0, pp⟩ := ht.par i j hlt e1 hp e2
+      rw [e, t0]
+      refine ⟨by omega, fun hnp => absurd ((hpend i).mpr ⟨pp, hparne i e1⟩) hnp, fun hn => ?_⟩
+      exact absurd (Nat.lt_trans (ht.parlt j i hlt e1) hlt) (Nat.not_lt.mpr hn)
+  · intro i c hc hpc hpp he
+    rw [h.next] at hc; rw [h.par] at hpc; rw [h.ef] at he
+    obtain ⟨hpp0, hcj⟩ := (hpend c).mp hpp
+    have hij : i ≠ j := by
+      intro e; subst e
+      have := hk c hc hpc hpp0; rw [he] at this; simp at this
+    obtain ⟨t0, pp⟩ := ht.par i c hc hpc hpp0 he
+    refine ⟨?_, (hpend i).mpr ⟨pp, hij⟩⟩
+    rcases htot' i with e | ⟨_, e1, e2, e3⟩
+    · rw [e]; exact t0
+    · exfalso
+      have hl := hlb i e2
+      rw [h.wt] at hl
+      simp only [e1, if_true, e3] at hl
+      have hz : cntPend s' i = 0 := Nat.le_zero.mp hl
+      unfold cntPend at hz
+      rw [h.next] at hz
+      have := cntTo_zero_forall hz c hc
+      unfold kidPend at this
+      rw [h.par] at this
+      simp [hpc] at this
+      exact this hpp
+  · intro i hq
+    rw [hnoKids]; apply ht.pre i
+    rcases hq with a | a | ⟨f, a⟩
+    · exact Or.inl (by rw [← hEW]; exact a)
+    · exact Or.inr (Or.inl (by rw [← h.infl]; exact a))
+    · rcases hmem _ a with b | ⟨par, b⟩
+      · exact Or.inr (Or.inr ⟨f, b⟩)
+      · simp at b
+  · intro i hi; rw [hEW] at hi; rw [h.tw]; exact ht.pre2 i hi
+  · intro i c hc hpc hs
+    rw [h.next] at hc; rw [h.par] at hpc; rw [h.st] at hs
+    rw [h.ef]
+    by_cases hcj : c = j
+    · simp [hcj] at hs
+    · simp only [hcj, if_false] at hs; exact ht.rej i c hc hpc hs
+  · intro i _ he
+    rw [h.ef] at he; exact hlb i he
+  · intro c par hc hpc
+    rw [h.next] at hc; rw [h.par] at hpc; exact ht.parlt c par hc hpc
+  · intro X t hm
+    rw [h.tw] at hm
+    obtain ⟨a, b, c, d, e', f, g, i, k⟩ := ht.tw X t hm
+    have hjlt := hlt
+    refine ⟨?_, ?_, ?_, ?_, ?_, (hnoKids t).mpr f, fun hT => g ((hTw X).mp hT), ?_, by rw [h.next]; exact k⟩
+    · intro hpX
+      obtain ⟨hpX0, _⟩ := (hpend X).mp hpX
+      obtain ⟨pt, tt0⟩ := a hpX0
+      have htj : t ≠ j := by intro e; subst e; exact hnt X hm hpX0
+      refine ⟨(hpend t).mpr ⟨pt, htj⟩, ?_⟩
+      rcases htot' t with e | ⟨_, e1, _, _⟩
+      · rw [e]; exact tt0
+      · exact absurd e1 (f j hlt)
+    · intro hX
+      rw [h.st] at hX ⊢
+      by_cases htj : t = j
+      · simp [htj]
+      · simp only [htj, if_false]
+        by_cases hXj : X = j
+        · subst hXj
+          have := (a hp).1; unfold pend at this; rw [this]; simp
+        · simp only [hXj, if_false] at hX; exact b hX
+    · intro hy hX
+      rw [h.st] at hX ⊢
+      by_cases hXj : X = j
+      · simp [hXj] at hX
+      · simp only [hXj, if_false] at hX
+        have := c hy hX
+        by_cases htj : t = j
+        · subst htj; unfold pend at hp; rw [hp] at this; simp at this
+        · simp only [htj, if_false]; exact this
+    · intro hq; rcases hmem _ hq with h1 | ⟨par, h1⟩
+      · exact d h1
+      · simp at h1
+    · intro hq; rcases hmem _ hq with h1 | ⟨par, h1⟩
+      · exact e' h1
+      · simp at h1
+    · intro Y hY; rw [h.tw] at hY; exact i Y hY
+  · intro X; rw [h.tw]; exact ht.nodup X
+
 end RedunModel.SchedCore
